@@ -20,7 +20,7 @@ import re
 import common
 
 THEOREMS = ["C04_codec_roundtrip", "C04_xml_compat", "C04_xml_pairs_closed", "C04_xml", "C04_top_lists",
-            "C04_truthy_on_typed_value_rejected", "C04_example"]
+            "C04_xml_store", "C04_truthy_on_typed_value_rejected", "C04_example", "C04_store_example"]
 PRELUDE = ("From Coq Require Import List ZArith String.\n"
            "From Basyx Require Import model.XmlCodec model.XmlCompat model.XmlMeta model.XmlEntry model.XmlObs "
            "gen.Gen_XmlWriter gen.Gen_XmlReader.\nOpen Scope string_scope.")
@@ -632,6 +632,8 @@ def run(chk):
                     chk.fail(bad[0], bad[1], {"kind": "single", "i": 10 ** 6 + j, "member": m, "class": cname,
                                               "directed": [c, a], "diff": bad[1]})
                     break
+    # ---- constructables the reader offers but object_to_xml_element cannot produce (it raises)
+    single_writer_gaps(chk, unsupported)
     # ---- XML lexical stress through a Property / MultiLanguageProperty / File / Blob in one submodel
     lex_fail = lexical_stress(chk)
 
@@ -738,6 +740,45 @@ def run(chk):
                            "stores (write_store/read_store); non-trivial = every case (distinct by kind and index)")
 
 
+def single_writer_gaps(chk, unsupported):
+    from basyx.aas import model
+    from basyx.aas.adapter.xml.xml_serialization import object_to_xml_element
+    ref = model.ExternalReference((model.Key(model.KeyTypes.GLOBAL_REFERENCE, "urn:x"),))
+    samples = {"MULTI_LANGUAGE_NAME_TYPE": model.MultiLanguageNameType({"en": "a"}),
+               "MULTI_LANGUAGE_TEXT_TYPE": model.MultiLanguageTextType({"en": "a"}),
+               "DEFINITION_TYPE_IEC61360": model.DefinitionTypeIEC61360({"en": "a"}),
+               "PREFERRED_NAME_TYPE_IEC61360": model.PreferredNameTypeIEC61360({"en": "a"}),
+               "SHORT_NAME_TYPE_IEC61360": model.ShortNameTypeIEC61360({"en": "a"}),
+               "VALUE_LIST": {model.ValueReferencePair("v", ref)}}
+    for m in unsupported:
+        if m not in samples:
+            continue            # SECURITY / IEC61360_CONCEPT_DESCRIPTION: no reader branch either (ValueError)
+        chk.count("single_writer_gap_probe")
+        try:
+            el = object_to_xml_element(samples[m])
+        except Exception as e:
+            chk.fail(f"C04:single:{m}:writer-raises:{type(e).__name__}",
+                     f"object_to_xml_element({type(samples[m]).__name__}) raises {type(e).__name__}: {e}",
+                     {"kind": "gap", "member": m})
+            continue
+        bad = None
+        try:
+            import aasgen
+            from lxml import etree
+            from basyx.aas.adapter.xml import read_aas_xml_element, XMLConstructables
+            back = read_aas_xml_element(io.BytesIO(etree.tostring(el)), getattr(XMLConstructables, m), failsafe=False)
+            if m == "VALUE_LIST":
+                same = sorted(x.value for x in back) == sorted(x.value for x in samples[m])
+            else:
+                same = type(back) is type(samples[m]) and dict(back.items()) == dict(samples[m].items())
+            if not same:
+                bad = "value changed"
+        except Exception as e:
+            bad = f"{type(e).__name__}: {e}"
+        if bad:
+            chk.fail(f"C04:single:{m}:roundtrip", bad, {"kind": "gap", "member": m})
+
+
 LEX = [" leading", "trailing ", "  ", " ", "\t", "\n", "\r", "a\nb", "a\r\nb", "a\rb", "\ttab\t", "<tag>", "a&b", "]]>",
        "&amp;", "<![CDATA[x]]>", "\U00010000", "\U0001F600 astral", "�", "퟿", "a  b", "'\"", "x" * 300]
 
@@ -805,6 +846,11 @@ def replay(path):
         bad = oracle_single(obj, rp["member"])
         print("oracle:", bad)
         return 1 if bad else 0
+    if rp.get("kind") == "gap":
+        c2 = common.Check("C04", "quick", seed)
+        single_writer_gaps(c2, [rp["member"]])
+        print("oracle:", [f["what"] for f in c2.failures])
+        return 1 if c2.failures else 0
     if rp.get("kind") == "lex":
         c2 = common.Check("C04", "quick", seed)
         lexical_stress(c2)
